@@ -25,12 +25,12 @@ type Family struct {
 	Depth   map[string]int              // tier -> depth
 	Obs     drv.ObsMask
 	KeySet  []int
-	LeafObs drv.ObsMask                 // observation after a leaf letter (default: Obs)
-	Setup   func(w *drv.World)          // installed on every fresh world
-	AtClose func(w *drv.World)          // runs whenever the final letter of a transition closes the directory
-	Before  func(w *drv.World) any      // snapshot taken before the final letter
+	LeafObs drv.ObsMask                                   // observation after a leaf letter (default: Obs)
+	Setup   func(w *drv.World)                            // installed on every fresh world
+	AtClose func(w *drv.World)                            // runs whenever the final letter of a transition closes the directory
+	Before  func(w *drv.World) any                        // snapshot taken before the final letter
 	After   func(w *drv.World, letter string, before any) // family invariants after the final letter
-	Prefix  []string                    // letters applied before the search starts (non-initial start state)
+	Prefix  []string                                      // letters applied before the search starts (non-initial start state)
 }
 
 var Families = map[string]*Family{}
